@@ -359,6 +359,9 @@ Fixpoint bput_rounds (st : store) (sched : list round) (kvs : list (list N * ent
           end
       end
   end.
+(* BatchPutWithTTL refuses mismatching argument lengths before any request (ttls may be empty = no ttl) *)
+Definition batch_put_args_ok (nkeys nvals nttls : nat) : bool :=
+  (nkeys =? nvals)%nat && ((nttls =? 0)%nat || (nkeys =? nttls)%nat).
 Definition batch_put (st : store) (sched : list round) (kvs : list (list N * entry)) : option (store * bool) :=
   bput_rounds st sched kvs (map fst kvs).
 
